@@ -47,6 +47,8 @@ def conds(tier):
         dict(module=M, function='count_topologies_shape4', timeout=170,
              what='tree_count_topologies == brute force over one-sample-per-set choices; tree shape 4 of 5 x symbolic '
                   'assignment of the samples to <=3 sets'),
+        dict(module=M, function='count_topologies_two_roots', timeout=170,
+             what='tree_count_topologies on a two-root tree: per-root counts add up'),
     ]
     if tier == 'thorough':
         for c in q:
